@@ -5,6 +5,7 @@ import (
 	"bytes"
 	"context"
 	"fmt"
+	"golang.org/x/crypto/sha3"
 	"io"
 	"testing"
 	"testing/iotest"
@@ -105,6 +106,20 @@ func checkNode(t fataler, where string, key []byte, n util.Node) (nontrivial boo
 		}
 		if !bytes.Equal(piecewise.Encode(), enc) || !bytes.Equal(piecewise.GetHashBytes(), n.GetHashBytes()) {
 			t.Fatalf("%s: %T decoded from a reader delivering %s differs: enc %x -> %x", where, n, name, enc, piecewise.Encode())
+		}
+	}
+	// a caller that reads records into one scratch buffer: the node decoded from it stays what it was when the buffer
+	// is used for the next record
+	{
+		buf := bytes.NewBuffer(append(make([]byte, 0, len(enc)+64), enc...))
+		fromBuf, err := util.CreateNode(buf)
+		if err != nil {
+			t.Fatalf("%s: CreateNode from a bytes.Buffer: %v", where, err)
+		}
+		buf.Reset()
+		buf.Write(bytes.Repeat([]byte{'f'}, len(enc)+64))
+		if !bytes.Equal(fromBuf.Encode(), enc) || !bytes.Equal(fromBuf.GetHashBytes(), n.GetHashBytes()) {
+			t.Fatalf("%s: %T decoded from a bytes.Buffer changed when the buffer was reused: enc %x -> %x", where, n, enc, fromBuf.Encode())
 		}
 	}
 	for name, c := range map[string]util.Node{"CloneNode": n.CloneNode(), "Clone": n.Clone().(util.Node)} {
@@ -401,5 +416,52 @@ func TestPersistentPut(t *testing.T) {
 			}
 		}
 		ev.Case(fmt.Sprintf("pput%x", keys), origin >= 1<<31, "persistent-put")
+	})
+}
+
+// Sizes: every body length from a few bytes to beyond two 512-byte blocks for each node kind, and values at the size
+// limit on the node kinds that carry one (a leaf, a branch with all sixteen children, a value node).
+func TestNodeSizes(t *testing.T) {
+	ev.Guard(t, "TestNodeSizes", func() {
+		seed := ev.SeedFor("TestNodeSizes")
+		full := func(val []byte) *util.FullNode {
+			fn := util.NewFullNode(mptkit.Val(val))
+			for i := 0; i < 16; i++ {
+				k := sha3.Sum256([]byte{byte(i), byte(seed)})
+				fn.PutChild("0123456789abcdef"[i], k[:])
+			}
+			return fn
+		}
+		value := func(n int, salt byte) []byte {
+			v := bytes.Repeat([]byte{0x3a, 0x00, 0x5a, salt}, n/4+1)[:n]
+			if n > 0 {
+				v[n-1] = 0x77
+			}
+			return v
+		}
+		for L := 1; L <= 1300; L++ {
+			path := []byte("0123456789abcdef0123456789abcdef0123456789abcdef0123456789abcdef")[:int(seed+uint64(L))%65]
+			nodes := map[string]util.Node{
+				"leaf":   util.NewLeafNode([]byte("ab"), path, util.Sequence(seed%5), mptkit.Val(value(L, byte(L)))),
+				"branch": full(value(L, byte(L))),
+			}
+			vn := util.NewValueNode()
+			vn.SetValue(mptkit.Val(value(L, byte(L))))
+			nodes["value"] = vn
+			for kind, n := range nodes {
+				checkNode(t, fmt.Sprintf("size sweep, %s with a value of %d bytes", kind, L), nil, n)
+				ev.Case(fmt.Sprintf("sweep/%s/%d", kind, L), len(n.Encode())%512 == 0, "size-sweep:"+kind)
+			}
+		}
+		for _, short := range []int{0, 1, 15, 16, 17 + int(seed%400), 1040} {
+			L := util.MPTMaxAllowableNodeSize - short
+			for kind, n := range map[string]util.Node{
+				"leaf":   util.NewLeafNode([]byte("ab"), []byte("cdef01"), 1, mptkit.Val(value(L, 9))),
+				"branch": full(value(L, 9)),
+			} {
+				checkNode(t, fmt.Sprintf("%s with a value of %d bytes (limit - %d)", kind, L, short), nil, n)
+				ev.Case(fmt.Sprintf("limit/%s/%d", kind, L), true, "value-at-the-size-limit:"+kind)
+			}
+		}
 	})
 }
